@@ -494,6 +494,9 @@ pub struct Socket<'a> {
     /// The last sequence number sent.
     /// I.e. in an idle socket, local_seq_no+tx_buffer.len().
     remote_last_seq: TcpSeqNumber,
+    /// The highest sequence number sent so far. Unlike `remote_last_seq` it is not rewound
+    /// for a retransmission and it includes zero-window probes.
+    remote_max_seq: TcpSeqNumber,
     /// The last acknowledgement number sent.
     /// I.e. in an idle socket, remote_seq_no+rx_buffer.len().
     remote_last_ack: Option<TcpSeqNumber>,
@@ -601,6 +604,7 @@ impl<'a> Socket<'a> {
             local_seq_no: TcpSeqNumber::default(),
             remote_seq_no: TcpSeqNumber::default(),
             remote_last_seq: TcpSeqNumber::default(),
+            remote_max_seq: TcpSeqNumber::default(),
             remote_last_ack: None,
             remote_last_win: 0,
             remote_win_len: 0,
@@ -916,6 +920,7 @@ impl<'a> Socket<'a> {
         self.local_seq_no = TcpSeqNumber::default();
         self.remote_seq_no = TcpSeqNumber::default();
         self.remote_last_seq = TcpSeqNumber::default();
+        self.remote_max_seq = TcpSeqNumber::default();
         self.remote_last_ack = None;
         self.remote_last_win = 0;
         self.remote_win_len = 0;
@@ -1062,6 +1067,7 @@ impl<'a> Socket<'a> {
         let seq = Self::random_seq_no(cx);
         self.local_seq_no = seq;
         self.remote_last_seq = seq;
+        self.remote_max_seq = seq;
         Ok(())
     }
 
@@ -1397,6 +1403,14 @@ impl<'a> Socket<'a> {
         self.remote_last_seq - self.local_seq_no
     }
 
+    /// Sequence number for a segment that occupies no sequence space (ACK, window update):
+    /// the highest sequence number sent so far (SND.NXT in RFC 9293 terms). The remote may
+    /// already have received everything up to there, and discards an empty segment with an
+    /// older sequence number as a duplicate without looking at its acknowledgement or window.
+    fn empty_segment_seq(&self) -> TcpSeqNumber {
+        self.remote_last_seq.max(self.remote_max_seq)
+    }
+
     fn cwnd_remaining(&self) -> usize {
         self.congestion_controller
             .inner()
@@ -1481,7 +1495,7 @@ impl<'a> Socket<'a> {
         // [...] an empty acknowledgment segment containing the current send-sequence number
         // and an acknowledgment indicating the next sequence number expected
         // to be received.
-        reply_repr.seq_number = self.remote_last_seq;
+        reply_repr.seq_number = self.empty_segment_seq();
         reply_repr.ack_number = Some(self.remote_seq_no + self.rx_buffer.len());
         self.remote_last_ack = reply_repr.ack_number;
 
@@ -1933,6 +1947,7 @@ impl<'a> Socket<'a> {
                 self.local_seq_no = Self::random_seq_no(cx);
                 self.remote_seq_no = repr.seq_number + 1;
                 self.remote_last_seq = self.local_seq_no;
+                self.remote_max_seq = self.local_seq_no;
                 self.remote_has_sack = repr.sack_permitted;
                 self.remote_win_scale = repr.window_scale;
                 // Remote doesn't support window scaling, don't do it.
@@ -2725,6 +2740,11 @@ impl<'a> Socket<'a> {
             State::FinWait2 | State::TimeWait => {}
         }
 
+        // A segment without data or flags does not take part in a retransmission.
+        if repr.is_empty() {
+            repr.seq_number = self.empty_segment_seq();
+        }
+
         // There might be more than one reason to send a packet. E.g. the keep-alive timer
         // has expired, and we also have data in transmit buffer. Since any packet that occupies
         // sequence space will elicit an ACK, we only need to send an explicit packet if we
@@ -2777,6 +2797,10 @@ impl<'a> Socket<'a> {
         ip_repr.set_payload_len(repr.buffer_len());
         emit(cx, (ip_repr, repr))?;
 
+        self.remote_max_seq = self
+            .remote_max_seq
+            .max(repr.seq_number + repr.segment_len());
+
         // The fast retransmit is only done once the segment was handed to the device; if the
         // device was exhausted it stays pending and is retried on the next poll.
         self.pending_fast_retransmit = false;
@@ -2812,9 +2836,11 @@ impl<'a> Socket<'a> {
         // We've sent a packet successfully, so we can update the internal state now.
         // Use max() so a fast-retransmit segment (whose seq_number is local_seq_no, well
         // behind the current frontier) doesn't rewind the tracked "highest sent" sequence.
-        self.remote_last_seq = self
-            .remote_last_seq
-            .max(repr.seq_number + repr.segment_len());
+        if repr.segment_len() > 0 {
+            self.remote_last_seq = self
+                .remote_last_seq
+                .max(repr.seq_number + repr.segment_len());
+        }
         self.remote_last_ack = repr.ack_number;
         self.remote_last_win = repr.window_len;
 
